@@ -12,6 +12,8 @@ def own_prop(p):
     parts = os.path.relpath(os.path.abspath(p), VERIF).split(os.sep)
     if parts[0] == "selftest" and parts[1].startswith("C") and len(parts[1]) == 3:
         return parts[1]
+    if parts[0] == "selftest" and parts[1] == "composed":
+        return parts[2].split("_")[0]
     m = os.path.join(os.path.dirname(p), "meta.json")
     if os.path.exists(m):
         return json.load(open(m))["property"]
@@ -28,6 +30,34 @@ def one(args):
         return patch, json.loads(r.stdout.strip().splitlines()[-1])
     except Exception:
         return patch, {"crash": [9, [r.stderr[-300:]]]}
+
+
+def run_jobs(jobs, lanes=4):
+    """jobs: [(patch, [props])] -> {patch: {prop: [exit, keys]}} using `lanes` private copies of the dependency target dir"""
+    import queue
+    base = os.path.join(VERIF, ".cache", "target")
+    root = tempfile.mkdtemp(prefix="pv-sweep-")
+    q = queue.Queue()
+    for i in range(max(1, min(lanes, len(jobs)))):
+        d = os.path.join(root, "t%d" % i)
+        if os.path.isdir(base):
+            subprocess.check_call(["cp", "-a", base, d])
+        q.put(d)
+
+    def work(j):
+        l = q.get()
+        try:
+            return one((os.path.abspath(j[0]), j[1], l))
+        finally:
+            q.put(l)
+    out = {}
+    try:
+        with ThreadPoolExecutor(max(1, min(lanes, len(jobs)))) as ex:
+            for patch, res in ex.map(work, jobs):
+                out[patch] = res
+    finally:
+        shutil.rmtree(root, ignore_errors=True)
+    return out
 
 
 def main():
